@@ -621,3 +621,113 @@ def check_chk_record(rec, sym=None):
         except Exception as e:
             fail(call, "exc-after=" + type(e).__name__, repr(e)[:300])
     return fails
+
+
+# ---------------------------------------------------------------- C20: one long-lived object with a history
+
+def abs_obj(o):
+    """ShowObj record of MC_TxCheckHistory -> plain projection with signed values"""
+    return abs_chk(o)
+
+
+def _apply_edit(Tx, tx, act):
+    """apply one edit of the spec's history to the live pycoin object, through its public fields"""
+    name = act[0]
+    if name == "set_in_script":
+        tx.txs_in[act[1] - 1].script = expand(act[2])
+    elif name == "set_out_script":
+        tx.txs_out[act[1] - 1].script = expand(act[2])
+    elif name == "set_witness":
+        tx.set_witness(act[1] - 1, [expand(w) for w in seq(act[2])])
+    elif name == "set_value":
+        tx.txs_out[act[1] - 1].coin_value = sval(act[2])
+    elif name == "set_outpoint":
+        tx.txs_in[act[1] - 1].previous_hash = expand(act[2])
+        tx.txs_in[act[1] - 1].previous_index = num(act[3])
+    elif name == "append_in":
+        i = act[1]
+        tx.txs_in.append(Tx.TxIn(expand(i["hash"]), num(i["index"]), expand(i["script"]), num(i["seq"])))
+    elif name == "remove_in":
+        tx.txs_in.pop()
+    elif name == "append_out":
+        o = act[1]
+        tx.txs_out.append(Tx.TxOut(sval(o["value"]), expand(o["script"])))
+    elif name == "remove_out":
+        tx.txs_out.pop()
+    else:
+        raise ValueError(name)
+
+
+def _pubstate(tx):
+    p = project_tx(tx)
+    ok = all(0 <= v < 2 ** 64 for v, _ in p[2])
+    return p, project_unspents(tx), (tx.as_bin() if ok else None)
+
+
+def check_hist_record(rec, sym=None):
+    """Run one history of MC_TxCheckHistory on ONE pycoin object; at every check() also on a fresh object
+    built from the current fields.  The verdict must be the one the spec derives from the current fields."""
+    fails = []
+    sym = rec["coin"]
+    Tx = network(sym).tx
+    acts = rec["acts"]
+    kinds = ",".join(a[0] for a in acts)
+
+    def fail(step, call, what, detail=None):
+        fails.append(("C20|history|%s|step=%d|%s|%s" % (kinds, step + 1, call, what),
+                      "%s history [%s], step %d %s: %s" % (sym, kinds, step + 1, call, what),
+                      {"sym": sym, "step": step, "what": what, "detail": detail, "case": rec}))
+
+    try:
+        tx = build_tx(Tx, abs_obj(rec["start"]))
+    except Exception as e:
+        fail(-1, "build", "exc=" + type(e).__name__, repr(e)[:200])
+        return fails
+    for k, (act, out) in enumerate(zip(acts, rec["outs"])):
+        want_fields = abs_obj(out["obj"])
+        facts = out["facts"]
+        name = act[0]
+        try:
+            if name == "check":
+                before = _pubstate(tx)
+                got, info = observe_check(tx)
+                want = facts["verdict"]
+                if want != "any" and got != want:
+                    fail(k, "check", "long-lived|expected=%s|got=%s" % (want, got), info)
+                if _pubstate(tx) != before:
+                    fail(k, "check", "transaction-modified")
+                fresh = build_tx(Tx, want_fields)
+                gotf, infof = observe_check(fresh)
+                if want != "any" and gotf != want:
+                    fail(k, "check", "fresh|expected=%s|got=%s" % (want, gotf), infof)
+                if want != "any" and got != gotf:
+                    fail(k, "check", "long-lived-differs-from-fresh|long-lived=%s|fresh=%s" % (got, gotf))
+            elif name == "is_coinbase":
+                before = _pubstate(tx)
+                got = bool(tx.is_coinbase())
+                if facts["coinbase"] and not got:
+                    fail(k, name, "coinbase-not-recognised")
+                if _pubstate(tx) != before:
+                    fail(k, name, "transaction-modified")
+            elif name == "bad_solution_count":
+                before = _pubstate(tx)
+                try:
+                    got = tx.bad_solution_count()
+                except Exception:
+                    if facts["coinbase"]:
+                        raise
+                    got = None
+                if facts["coinbase"] and got != 0:
+                    fail(k, name, "coinbase-counted-unsigned|got=%r" % (got,))
+                if _pubstate(tx) != before:
+                    fail(k, name, "transaction-modified")
+            else:
+                _apply_edit(Tx, tx, act)
+        except Exception as e:
+            fail(k, name, "exc=" + type(e).__name__, repr(e)[:200])
+            return fails
+        # the live object holds exactly the fields the spec's object holds
+        if project_tx(tx) != want_fields:
+            fail(k, name, "fields-differ-from-spec|" + diff_field(project_tx(tx), want_fields))
+            return fails
+    return fails
